@@ -11,7 +11,6 @@ ACTIONS = ["PushCS", "PushResolve", "PopCS", "PopCompletePush", "UnblockPushCS",
 SEQ_ACTIONS = ACTIONS + ["PushThrowCS"]
 MERGE = r"(PushResolve|PopCompletePush|UnblockPushResolve|UnblockPopResolve)$"
 WORKERS = 4
-LIMITS = (1, 2, 3, 4)
 
 
 FORMS = ["one", "two", "copy", "move"]   # LimitedQueue.tla: Forms / FormOf(n), harness: FORMS[(n + shift) % 4]
@@ -30,10 +29,11 @@ def item_of(n, shift):
     return {"a": n, "b": 0, "copies": 0, "form": "1"}   # Item x(n); q.push(std::move(x))
 
 
-def make_proj(shift):
+def make_proj(form_shift):
     def proj(st):
         """specification state -> what the replayer observes on the real limited_queue"""
         npush = st["npush"]
+        shift = (form_shift + st["limit"]) % 4     # FormOf(n) == Forms[((n + limit + FormShift) % 4) + 1]
         live = [0] * (npush + 1)
         for v in st["items"]:
             live[v] += 1
@@ -84,13 +84,12 @@ def cproj(st):
     }
 
 
-def conc_replay(ctx):
+def conc_replay(ctx, rpc_job):
     """interleavings of producer and consumer threads at critical-section grain, replayed on real threads: the
     queue's std::mutex is virtual (interposed pthread layer), so each critical section and the code that follows
     its unlock (hand-over, completion of the admitted push, unblock resolutions) are separately scheduled; a
     call that takes the lock a second time, or changes the queue after its unlock, diverges"""
-    rpc = vlib.compile_harness(vlib.VERIF + "/harness/limited_queue_conc_replay.cpp", "limited_queue_conc_replay",
-                               extra_flags=["-rdynamic"], sanitize=False)
+    rpc = rpc_job.result()
     threads = ["p1", "p2", "c1", "c2"]
     deep = None if ctx.quick else {"ExtraPush": 3, "ExtraPop": 2}
     graph_replay(ctx, SPEC, SPEC, "LimitedQueue_conc_replay.cfg", "conc_replay", rpc, cproj,
@@ -125,6 +124,11 @@ class Background:
 
 def run(ctx):
     sd = os.path.join(vlib.VERIF, "spec", SPEC)
+    # development aid (mutation runs): C10_PARTS=seq,concreplay restricts the check to the named parts
+    parts = set(os.environ.get("C10_PARTS", "seq,conc,concreplay,prefix").split(","))
+    if parts != {"seq", "conc", "concreplay", "prefix"}:
+        ctx.exhaustive = False
+        ctx.assume("partial run: C10_PARTS=" + ",".join(sorted(parts)))
     # the TLC-only run of the large concurrent model (2.) works in the background while the graphs of 1. are
     # replayed; it does not touch ctx (accounted for below)
     conc = None if ctx.quick else {"ExtraPop": 3, "MaxUnblockPush": 2}
@@ -134,7 +138,11 @@ def run(ctx):
         base = open(conc_cfg).read()
         conc_cfg = os.path.join(vlib.BUILD, "%s_conc.cfg" % ctx.prop)
         vlib.write_cfg(conc_cfg, base, conc)
-    conc_job = Background(lambda: vlib.run_tlc(sd, SPEC, conc_cfg, "%s_conc" % ctx.prop, workers=WORKERS, timeout=3000))
+    conc_job = Background(lambda: vlib.run_tlc(sd, SPEC, conc_cfg, "%s_conc" % ctx.prop, workers=WORKERS, timeout=3000)
+                          if "conc" in parts else None)
+    rpc_job = Background(lambda: vlib.compile_harness(vlib.VERIF + "/harness/limited_queue_conc_replay.cpp",
+                                                      "limited_queue_conc_replay", extra_flags=["-rdynamic"],
+                                                      sanitize=False))
     # thorough: ASan/UBSan and the library's own asserts on (e.g. "Destroy of pending future")
     rp = vlib.compile_harness(vlib.VERIF + "/harness/limited_queue_replay.cpp", "limited_queue_replay",
                               sanitize=not ctx.quick, ndebug=ctx.quick)
@@ -150,52 +158,56 @@ def run(ctx):
     if os.environ.get("C10_THROW_AT_HANDOVER"):
         # only for a tree in which a throwing push no longer loses the waiting consumer (see LimitedQueue.tla)
         deep["ThrowAtHandover"] = "TRUE"
-    for limit in LIMITS:
-        # one TLC run per limit (small graphs, per-limit evidence); the rotation of the API forms over the pushes
-        # differs per limit and per seed, so every form meets the room, hand-over and blocked branch
-        shift = (limit + ctx.seed) % 4
+    # limits 1..4 in one graph (the constructor picks the limit in Init); the rotation of the API forms over the
+    # pushes differs per limit and per seed, so every form meets the room, hand-over and blocked branch
+    form_shift = ctx.seed % 4
 
-        def hdr(k, st0, shift=shift):
-            # quick: one variant per scenario, rotating over the 8 combinations; thorough: that variant and
-            # its complement, so every edge runs with both queue types, polled and awaited on both sides
-            bits = [(k >> i) & 1 for i in range(3)]
-            vs = ["/".join(names[i][bits[i]] for i in range(3))]
-            if not ctx.quick:
-                vs.append("/".join(names[i][1 - bits[i]] for i in range(3)))
-            return {"limit": st0["limit"], "shift": shift, "variants": vs}
-        consts = dict(deep)
-        consts["Limits"] = "{%d}" % limit
-        consts["FormShift"] = shift
-        graph_replay(ctx, SPEC, SPEC, "LimitedQueue_seq.cfg", "seq_l%d" % limit, rp, make_proj(shift),
+    def hdr(k, st0):
+        # quick: one variant per scenario, rotating over the 8 combinations; thorough: that variant and
+        # its complement, so every edge runs with both queue types, polled and awaited on both sides
+        bits = [(k >> i) & 1 for i in range(3)]
+        vs = ["/".join(names[i][bits[i]] for i in range(3))]
+        if not ctx.quick:
+            vs.append("/".join(names[i][1 - bits[i]] for i in range(3)))
+        return {"limit": st0["limit"], "shift": (form_shift + st0["limit"]) % 4, "variants": vs}
+    consts = dict(deep)
+    consts["FormShift"] = form_shift
+    if "seq" in parts:
+        graph_replay(ctx, SPEC, SPEC, "LimitedQueue_seq.cfg", "seq", rp, make_proj(form_shift),
                      header_fn=hdr, merge_re=MERGE, must_take=SEQ_ACTIONS, constants=consts,
-                     extra_random=200 if ctx.quick else 2000, tlc_kw={"workers": 2})
+                     extra_random=500 if ctx.quick else 5000, tlc_kw={"workers": WORKERS}, replay_timeout=3000)
 
     # 2. all interleavings of 2 producer + 2 consumer threads at critical-section grain, limits 1..4 (TLC only)
     res = conc_job.result()
-    if res.error and not res.violation:
+    if res is None:
+        pass
+    elif res.error and not res.violation:
         raise vlib.MachineryError("TLC failed on LimitedQueue (%s):\n%s" % (conc_cfg, res.error))
-    ctx.states += res.distinct
-    ctx.transitions += res.generated
-    ctx.models.append({"module": SPEC, "cfg": os.path.basename(conc_cfg), "distinct": res.distinct,
-                       "generated": res.generated, "depth": res.depth, "wall_s": round(res.wall, 1),
-                       "violation": res.violation,
-                       "coverage": {k: "%d:%d" % v for k, v in sorted(res.coverage.items())}})
-    ctx.check_coverage(res, ACTIONS, "LimitedQueue/conc")
-    if res.violation:
-        ctx.tlc_violation(res, "LimitedQueue:LimitedQueue_conc.cfg")
+    else:
+        ctx.states += res.distinct
+        ctx.transitions += res.generated
+        ctx.models.append({"module": SPEC, "cfg": os.path.basename(conc_cfg), "distinct": res.distinct,
+                           "generated": res.generated, "depth": res.depth, "wall_s": round(res.wall, 1),
+                           "violation": res.violation,
+                           "coverage": {k: "%d:%d" % v for k, v in sorted(res.coverage.items())}})
+        ctx.check_coverage(res, ACTIONS, "LimitedQueue/conc")
+        if res.violation:
+            ctx.tlc_violation(res, "LimitedQueue:LimitedQueue_conc.cfg")
 
     # 3. the same grain on real threads
-    conc_replay(ctx)
+    if "concreplay" in parts:
+        conc_replay(ctx, rpc_job)
 
     # 4. the properties are not vacuous: the model of the code before fca2138 (item enqueued *and*
     #    parked) must be rejected
-    base = open(os.path.join(sd, "LimitedQueue_seq.cfg")).read()
-    pre = os.path.join(vlib.BUILD, "%s_prefix.cfg" % ctx.prop)
-    vlib.write_cfg(pre, base, {"Fixed": "FALSE"})
-    r = vlib.run_tlc(sd, SPEC, pre, "%s_prefix" % ctx.prop, workers=2, coverage=False)
-    if not r.violation:
-        raise vlib.MachineryError("LimitedQueue properties accept the pre-fix model (Fixed = FALSE): vacuous")
-    ctx.extra["prefix_model_rejected_by"] = r.violation
+    if "prefix" in parts:
+        base = open(os.path.join(sd, "LimitedQueue_seq.cfg")).read()
+        pre = os.path.join(vlib.BUILD, "%s_prefix.cfg" % ctx.prop)
+        vlib.write_cfg(pre, base, {"Fixed": "FALSE"})
+        r = vlib.run_tlc(sd, SPEC, pre, "%s_prefix" % ctx.prop, workers=2, coverage=False)
+        if not r.violation:
+            raise vlib.MachineryError("LimitedQueue properties accept the pre-fix model (Fixed = FALSE): vacuous")
+        ctx.extra["prefix_model_rejected_by"] = r.violation
 
     ctx.assume("interleavings of 2 producer + 2 consumer threads are decided on the specification at critical-section "
                "grain; the implementation is bound to that grain (a) by single-threaded replays of every edge with "
